@@ -100,7 +100,10 @@ class Interp:
     # helpers
     # =============================================================================
     def raise_(self, name, *args, **fields):
-        raise PyRaise(exc(name, *args, **fields))
+        e = exc(name, *args, **fields)
+        if self.ctx.exc_stack:
+            e.fields.setdefault("__context__", self.ctx.exc_stack[-1])  # raised while another exception is being handled
+        raise PyRaise(e)
 
     def branch(self, v, note=""):
         if isinstance(v, SDict):
@@ -361,7 +364,12 @@ class Interp:
         if isinstance(op, (ast.Sub, ast.Add)) and isinstance(b, Opaque) and b.tag == "timedelta" and kind_of(a) == REAL:
             # datetimes are modelled as real timestamps, timedeltas by their total seconds
             return ops.binop(op, a, b.attrs["secs"])
-        return ops.binop(op, a, b)
+        try:
+            return ops.binop(op, a, b)
+        except TypeError:
+            if is_concrete(a) and is_concrete(b):
+                self.raise_("TypeError")  # CPython's own verdict on these two concrete operands
+            raise
 
     def list_concat(self, a, b, node):
         if isinstance(a, PyList) and isinstance(b, PyList):
@@ -389,7 +397,12 @@ class Interp:
         if isinstance(op, (ast.In, ast.NotIn)):
             t = self.contains(b, a, node)
             return ops.b_not(t) if isinstance(op, ast.NotIn) else t
-        return ops.compare(op, a, b)
+        try:
+            return ops.compare(op, a, b)
+        except TypeError:
+            if (a is None or is_concrete(a)) and (b is None or is_concrete(b)):
+                self.raise_("TypeError")
+            raise
 
     def contains(self, container, item, node=None):
         if isinstance(container, (tuple, frozenset)):
@@ -482,6 +495,9 @@ class Interp:
             if attr in ("__traceback__", "__cause__", "__context__"):
                 return None
             if attr == "args":
+                if getattr(recv, "args_unknown", False):
+                    # the constructor arguments of this exception were not evaluated (DESIGN 3.3): its args are not known
+                    self.unsupported(node, "args of an exception whose constructor arguments are not modelled")
                 return recv.args
         if isinstance(recv, ClassRef):
             found = self.pack.find_attr(recv.name, attr)
@@ -745,7 +761,9 @@ class Interp:
             if fv.name in self.pack.exc_ctor_fields:
                 args, kwargs = self.eval_args(node, env)
                 return self.pack.exc_ctor_fields[fv.name](self, fv, args, kwargs)
-            return SExc(fv, ())
+            e = SExc(fv, ())
+            e.args_unknown = bool(node.args or node.keywords)  # arguments not evaluated: e.args / str(e) are unknown, not empty
+            return e
         args, kwargs = self.eval_args(node, env)
         return self.call_value(fv, args, kwargs, node, env)
 
@@ -1404,6 +1422,20 @@ class Interp:
         elif isinstance(t, (ast.Tuple, ast.List)):
             if isinstance(v, (tuple, PyList)):
                 items = list(v) if isinstance(v, tuple) else v.items
+                stars = [k for k, e in enumerate(t.elts) if isinstance(e, ast.Starred)]
+                if len(stars) > 1:
+                    self.unsupported(t, "two starred targets")
+                if stars:
+                    k = stars[0]
+                    after = len(t.elts) - k - 1
+                    if len(items) < len(t.elts) - 1:
+                        self.raise_("ValueError")
+                    for sub, x in zip(t.elts[:k], items[:k]):
+                        self.assign_target(sub, x, env)
+                    self.assign_target(t.elts[k].value, PyList(items[k:len(items) - after]), env)
+                    for sub, x in zip(t.elts[k + 1:], items[len(items) - after:]):
+                        self.assign_target(sub, x, env)
+                    return
                 if len(items) != len(t.elts):
                     self.raise_("ValueError")
                 for sub, x in zip(t.elts, items):
@@ -1444,6 +1476,14 @@ class Interp:
                 v = h(self, v)
             else:
                 self.unsupported(node, "raise of %r" % (v,))
+        # implicit and explicit exception chaining (PEP 3134)
+        if self.ctx.exc_stack and "__context__" not in v.fields and v is not self.ctx.exc_stack[-1]:
+            v.fields["__context__"] = self.ctx.exc_stack[-1]
+        if node.cause is not None:
+            cause = self.eval(node.cause, env)
+            if isinstance(cause, ExcClass):
+                cause = SExc(cause, ())
+            v.fields["__cause__"] = cause
         raise PyRaise(v)
 
     def exc_matches(self, e, type_node, env):
